@@ -89,12 +89,40 @@ class SDy:
     __array_ufunc__ = None
     PREC = {8: 53, 4: 24}
 
-    def __init__(self, m, e, nb, dtype=real_np.float64):
+    EMIN = {8: -1074, 4: -149}
+    EMAX = {8: 1023, 4: 127}
+
+    def __init__(self, m, e, nb, dtype=real_np.float64, chk=True):
         self.m, self.e, self.nb, self.dtype = m, e, nb, real_np.dtype(dtype)
-        if nb > self.PREC[self.dtype.itemsize]:
+        sz = self.dtype.itemsize
+        if chk and nb > self.PREC[sz]:
             raise OutsideModel(f"float result not provably representable ({nb} bits)")
-        if not -1000 < e < 1000:
-            raise OutsideModel("float exponent out of the modelled range")
+        if e < self.EMIN[sz] or e + nb > self.EMAX[sz] + 1:
+            raise OutsideModel("float exponent out of the modelled range (subnormal/overflow)")
+
+    @staticmethod
+    def rounded(m, e, nb, dtype):
+        """Exact model of rounding the value m*2**e (|m| < 2**nb) to the nearest float of dtype,
+        ties to even: case split (by forking) on the bit length of m when it exceeds the precision."""
+        dtype = real_np.dtype(dtype)
+        prec = SDy.PREC[dtype.itemsize]
+        if nb <= prec:
+            return SDy(m, e, nb, dtype)
+        ctx = cur()
+        am = z3.If(m >= 0, m, -m)
+        if ctx.decide(am < (1 << prec)):
+            return SDy(m, e, prec, dtype)
+        for L in range(prec + 1, nb + 1):
+            if L == nb or ctx.decide(am < (1 << L)):
+                k = L - prec
+                d = 1 << k
+                q = m / d           # floor (z3 Int division by a positive constant)
+                r = m % d
+                h = d // 2
+                up = z3.Or(r > h, z3.And(r == h, q % 2 == 1))
+                # the carry case |m'| == 2**prec is representable as well
+                return SDy(z3.simplify(q + z3.If(up, 1, 0)), e + k, prec + 1, dtype, chk=False)
+        raise AssertionError
 
     @staticmethod
     def of(x, dtype=real_np.float64):
@@ -102,11 +130,9 @@ class SDy:
             return x
         if isinstance(x, SIV):
             bits, signed = dtype_bits(x.dtype)
-            return SDy(x.v, 0, bits, dtype)
+            return SDy.rounded(x.v, 0, bits, dtype)
         if isinstance(x, (builtins.int, builtins.float, real_np.floating, real_np.integer)):
-            f = builtins.float(x)
-            if f != x and isinstance(x, (builtins.int, real_np.integer)):
-                raise OutsideModel("integer constant not representable as float")
+            f = builtins.float(x)   # python/NumPy convert integer constants to the nearest double
             if f != f or f in (builtins.float("inf"), -builtins.float("inf")):
                 raise OutsideModel("non-finite float constant")
             n, d = f.as_integer_ratio()
@@ -172,7 +198,7 @@ class SDy:
         r = self.m % d
         h = d // 2
         up = z3.Or(r > h, z3.And(r == h, q % 2 == 1))
-        return SDy(z3.simplify(q + z3.If(up, 1, 0)), 0, max(self.nb + self.e, 0) + 2, self.dtype)
+        return SDy(z3.simplify(q + z3.If(up, 1, 0)), 0, max(self.nb + self.e, 0) + 2, self.dtype, chk=False)
 
     def clip(self, lo, hi):
         lo, hi = SDy.of(lo), SDy.of(hi)
@@ -184,7 +210,7 @@ class SDy:
         lm = lo.m * (1 << (lo.e - e))
         hm = hi.m * (1 << (hi.e - e))
         nb = max(self.nb + self.e - e, lo.nb + lo.e - e, hi.nb + hi.e - e)
-        return SDy(z3.simplify(z3.If(sm < lm, lm, z3.If(sm > hm, hm, sm))), e, nb, self.dtype)
+        return SDy(z3.simplify(z3.If(sm < lm, lm, z3.If(sm > hm, hm, sm))), e, nb, self.dtype, chk=False)
 
     def value_num_den(self):
         """(numerator term, positive denominator int) of the exact value."""
@@ -208,8 +234,8 @@ class SDy:
     def astype_float(self, dtype):
         dtype = real_np.dtype(dtype)
         if dtype.itemsize >= self.dtype.itemsize:
-            return SDy(self.m, self.e, self.nb, dtype)
-        return SDy(self.m, self.e, self.nb, dtype)   # constructor checks representability (24 bits)
+            return SDy(self.m, self.e, self.nb, dtype, chk=False)
+        return SDy.rounded(self.m, self.e, self.nb, dtype)
 
     def __zexpr__(self):
         return self.m
@@ -294,8 +320,20 @@ def elem_ite(c, a, b):
         return SFB(z3.simplify(z3.If(c, a.e, b.e)), a.dtype)
     if isinstance(a, SDy):
         x, y, e, nb = a._align(b)
-        return SDy(z3.simplify(z3.If(c, x, y)), e, nb, a.dtype)
+        return SDy(z3.simplify(z3.If(c, x, y)), e, nb, a.dtype, chk=False)
     raise OutsideModel("ite over unsupported element kind")
+
+
+def _like(new, old):
+    """Bring a constant element to the representation kind of ``old``."""
+    if type(new) is type(old):
+        return new
+    if isinstance(old, SIV) and isinstance(new, SBV):
+        v = z3.simplify(new.e)
+        return SIV(z3.IntVal(v.as_signed_long() if new.signed else v.as_long()), old.dtype)
+    if isinstance(old, SBV) and isinstance(new, SIV):
+        return SBV(z3.Int2BV(new.v, old.bits), old.dtype)
+    raise OutsideModel("mixed element kinds in masked assignment")
 
 
 def cast_elem(x, dtype, casting="unsafe"):
@@ -353,9 +391,18 @@ def _wrap(a, dtype):
 class SArray:
     __array_priority__ = 1000
 
-    def __init__(self, a, dtype):
+    def __init__(self, a, dtype, writeable=True):
         self._a = a
         self.dtype = real_np.dtype(dtype)
+        self.writeable = writeable
+
+    @property
+    def flags(self):
+        return _Flags(self)
+
+    def _check_writeable(self):
+        if not getattr(self, "writeable", True):
+            raise ValueError("assignment destination is read-only")
 
     # object array access (LazyUnique overrides)
     @property
@@ -451,6 +498,16 @@ class SArray:
         return _wrap(r, self.dtype)
 
     def __setitem__(self, k, v):
+        self._check_writeable()
+        if isinstance(k, SArray) and k.dtype.kind == "b":
+            # boolean mask assignment of a scalar: element-wise if-then-else
+            if k.shape != self.shape or isinstance(v, (SArray, real_np.ndarray)):
+                raise OutsideModel("boolean mask assignment (non-scalar / shape mismatch)")
+            new = cast_elem(v, self.dtype)
+            flat = self.a.reshape(-1) if self.a.flags.c_contiguous else None
+            for idx in real_np.ndindex(*self.shape):
+                self.a[idx] = elem_ite(zbool(k.a[idx]), _like(new, self.a[idx]), self.a[idx])
+            return
         k = _conc_index(k)
         if isinstance(k, SArray) or (isinstance(k, tuple) and any(isinstance(x, SArray) for x in k)):
             raise OutsideModel("assignment through a symbolic index array")
@@ -630,6 +687,7 @@ class SArray:
             raise OutsideModel(f"ufunc {name}")
         if out is not None:
             o = out[0] if isinstance(out, tuple) else out
+            o._check_writeable()
             o.a[...] = _map(lambda x: cast_elem(x, o.dtype), res.a) if res.dtype != o.dtype else res.a
             return o
         return res
@@ -644,6 +702,26 @@ class SArray:
         raise OutsideModel("implicit conversion of a symbolic array to ndarray")
 
 
+class _Flags:
+    def __init__(self, arr):
+        self._arr = arr
+
+    @property
+    def writeable(self):
+        return getattr(self._arr, "writeable", True)
+
+    @property
+    def c_contiguous(self):
+        return self._arr.a.flags.c_contiguous
+
+    @property
+    def f_contiguous(self):
+        return self._arr.a.flags.f_contiguous
+
+    def __getitem__(self, k):
+        return getattr(self, k.lower())
+
+
 def _retag(x, dtype):
     if isinstance(x, SBV):
         return SBV(x.e, dtype)
@@ -652,7 +730,7 @@ def _retag(x, dtype):
     if isinstance(x, SFB):
         return SFB(x.e, dtype)
     if isinstance(x, SDy):
-        return SDy(x.m, x.e, x.nb, dtype)
+        return SDy(x.m, x.e, x.nb, dtype, chk=False)
     return x
 
 
@@ -885,6 +963,7 @@ def h_clip(a, a_min=None, a_max=None, out=None, **kw):
         raise OutsideModel("clip of unsupported element")
     res = SArray(_map(f, a.a), a.dtype)
     if out is not None:
+        out._check_writeable()
         out.a[...] = res.a
         return out
     return res
